@@ -100,6 +100,27 @@ def run(chk):
                 g2 = core.call_real(lambda: st.pc_grouped_cross(df2, "g", "st").values.tolist())
                 if str(g1) != str(g2):
                     chk.violation("C13|pc_grouped_cross|list-on", "pc_grouped_cross with a list of feature columns differs from the joined column", meta)
+        # MISSING feature cells (unpaired reads: one chain absent): with a list of feature columns a missing cell is one more value
+        # of its column, and a group is kept when it has two ROWS, however many of its cells are missing
+        if n >= 3 and t % 3 == 0:
+            sm = [None if (i % 3 != 1 or rng.random() < 0.3) else v for i, v in enumerate(feat)]
+            dfm = pd.DataFrame({"g": keys, "s": sm, "t": [rng.choice(["x", "y"]) for _ in range(n)]}, index=idx)
+            dfm2 = dfm.assign(st=[("" if a is None else a) + "_" + b for a, b in zip(sm, dfm["t"])])
+            r_m = core.call_real(lambda: float(st.pc_conditional(dfm, "g", ["s", "t"])))
+            r_j = core.call_real(lambda: float(st.pc_conditional(dfm2, "g", "st")))
+            chk.count("pc_conditional:missing-feature-cells")
+            same = r_m == r_j or (r_m[0] == r_j[0] == "ok" and ((math.isnan(r_m[1]) and math.isnan(r_j[1])) or abs(r_m[1] - r_j[1]) <= 1e-12))
+            if not same:
+                chk.violation("C13|pc_conditional|missing-feature-cells", f"pc_conditional(on=[s, t]) with missing cells in s = {r_m}; the same rows with the "
+                              f"missing cell written as an empty text give {r_j}", {**meta, "s": sm, "t": list(dfm["t"])})
+            if big:
+                wm = [rng.choice([1, 2, 3]) for _ in big]
+                r_mw = core.call_real(lambda: float(st.pc_conditional(dfm, "g", ["s", "t"], group_weights=wm)))
+                r_jw = core.call_real(lambda: float(st.pc_conditional(dfm2, "g", "st", group_weights=wm)))
+                samew = r_mw == r_jw or (r_mw[0] == r_jw[0] == "ok" and ((math.isnan(r_mw[1]) and math.isnan(r_jw[1])) or abs(r_mw[1] - r_jw[1]) <= 1e-12))
+                if not samew:
+                    chk.violation("C13|pc_conditional|missing-feature-cells-weighted", f"pc_conditional(on=[s, t], group_weights) with missing cells in s = {r_mw}; "
+                                  f"with the missing cell written as an empty text: {r_jw}", {**meta, "s": sm, "t": list(dfm["t"]), "weights": wm})
         # group rows (what groupby hands to the statistics)
         ops.append({"op": "group_rows", "tbl": tbl})
         checks.append(("groupby", meta, core.call_real(lambda: [[skey(k), list(d["s"])] for k, d in sorted(list(df.groupby("g")))]), nt))
